@@ -14,10 +14,12 @@ BUILDER_NOTE = ("Trusted: Machine.tla as the reference interpreter; the recorder
 CHECKS = {
     "C01": ("TLC checks C01_Pos/C01_Mode as action properties of BuilderImpl (every motion-API interleaving on a small grid, "
             "nested mode contexts) and evaluates the same clauses, with the interpreter Machine!Exec run inside TLC, after "
-            "every call of recorded real executions (replayed TLC behaviours, random grid and float histories).",
+            "every call of recorded real executions (replayed TLC behaviours, random grid and float histories); an inductive "
+            "invariant over unbounded coordinates (MotionInd) is discharged by Apalache.",
             "5 C01", BUILDER_NOTE),
     "C02": ("Complete exploration of the finite interlock model (tool/coolant/halt x power bounds) against C02_Safe/"
-            "C02_Raises/C02_OnlyDoc; the same clauses judged by TLC on every call of recorded real executions.",
+            "C02_Raises/C02_OnlyDoc; the same clauses judged by TLC on every call of recorded real executions; an inductive "
+            "invariant over unbounded powers / tool numbers / bounds (InterlockInd) is discharged by Apalache.",
             "5 C02", BUILDER_NOTE),
     "C03": ("TLC explores bounds configurations x boundary values x modes on BuilderImpl; on real executions TLC checks every "
             "emitted word and every motion target against the bounds in force (exact order via q-records, so min-ulp / "
@@ -26,7 +28,8 @@ CHECKS = {
             "properties); on real executions the full public snapshot before and after every rejected call is compared by TLC.",
             "5 C05", BUILDER_NOTE),
     "C06": ("C06_Off as an action property over the complete interlock model (all bounds configurations incl. ranges "
-            "excluding zero) and on every off-call of recorded real executions.", "5 C06", BUILDER_NOTE),
+            "excluding zero) and on every off-call of recorded real executions; InterlockInd (Apalache, unbounded values).",
+            "5 C06", BUILDER_NOTE),
     "C07": ("C07_Tool/Coolant/Modal/Temps/Params: the public snapshot is compared by TLC with the interpreter state derived "
             "from the emitted lines, after every call, in the model and on real executions.", "5 C07", BUILDER_NOTE),
     "C20": ("C20_Count/Geometry/Params: hook invocations recorded by a probe hook registered through add_hook are compared "
@@ -59,7 +62,9 @@ CHECKS["C15"] = ("TLC explores SenderImpl (print thread, reader thread, firmware
                  "printcore) over jobs x corruption sets x delivery interleavings, with safety (in order, no duplicates), "
                  "termination and completeness modulo the two recorded findings; behaviours are projected onto corruption sets "
                  "and reply hold-points, replayed on the real printcore threads over a scripted serial port, and TLC re-derives "
-                 "the firmware's view from the logged transmissions (framing, xor checksum, numbering, resend service, completeness).",
+                 "the firmware's view from the logged transmissions (framing, xor checksum, numbering, resend service, completeness); "
+                 "schedules include zero latency (reply handled before write() returns); the job life cycle (pause, resume, cancel, "
+                 "';@pause', second job) is model-checked (SenderJobsImpl) and real executions are validated against it.",
                  "5 C15", "Trusted: the Marlin-style firmware written in SenderTrace.tla; the fake serial port as the OS boundary; "
                  "event order under one lock (replies logged when the host's reader takes them).")
 CHECKS["C16"] = ("TLC explores DirectWriteImpl (caller, sender thread, reader callback, start-up job) and shows synchrony/error "
